@@ -63,6 +63,7 @@ pub struct Done {
     pub v: u32,
     pub regs: [u32; NREG],
     pub ts: Vec<usize>,
+    pub it: Vec<(usize, u32)>,
 }
 
 pub struct Eval<'a> {
@@ -97,7 +98,7 @@ impl<'a> Eval<'a> {
         }
         if self.stack.contains(&key) {
             self.abort.get_or_insert(Abort::Cycle);
-            return Done { v: 0, regs: [0; NREG], ts: vec![] };
+            return Done { v: 0, regs: [0; NREG], ts: vec![], it: vec![] };
         }
         self.stack.push(key.clone());
         self.trace.insert(key.clone(), Trace::default());
@@ -113,7 +114,7 @@ impl<'a> Eval<'a> {
         let prog = self.prog;
         let mut fr = Frame { ev: self, key: key.clone(), occ: BTreeMap::new(), specified: BTreeSet::new() };
         let out = run_body(&mut fr, prog, node, r0, ts0, it0);
-        let d = Done { v: out.ret, regs: out.regs, ts: out.ts };
+        let d = Done { v: out.ret, regs: out.regs, ts: out.ts, it: out.it };
         self.stack.pop();
         self.done.insert(key, d.clone());
         d
@@ -178,10 +179,10 @@ impl<'e, 'a> Host for Frame<'e, 'a> {
         let k = self.ev.node_key(node, arg);
         self.callee(k).v
     }
-    fn mk_call(&mut self, node: usize) -> (u32, Vec<usize>) {
+    fn mk_call(&mut self, node: usize) -> (u32, Vec<usize>, Vec<(usize, u32)>) {
         let k = self.ev.node_key(node, 0);
         let d = self.callee(k);
-        (d.v, d.ts)
+        (d.v, d.ts, d.it)
     }
     fn new_ts(&mut self, ident: u32, t0: u32, t1: u32) -> usize {
         let occ = self.occ.entry(ident).or_insert(0);
@@ -242,8 +243,8 @@ impl<'e, 'a> Host for Frame<'e, 'a> {
         t.spec = Some(v % self.ev.prog.m);
     }
     fn intern(&mut self, t: usize, v: u32) -> (usize, u32) {
-        self.tr().interned.push((t, v));
-        (t, v)
+        self.tr().interned.push((t % 4, v));
+        (t % 4, v)
     }
     fn read_it(&mut self, h: &(usize, u32)) -> u32 {
         h.1
